@@ -79,6 +79,10 @@ def run_cli(cli, r, scen, text, lib_convert, workdir, idx):
         path = os.path.join(d, "in.bob")
         if "missing_file" in fault:
             path = os.path.join(d, "does-not-exist.bob")
+        elif r.random() < 0.12:
+            # a file argument that is not a regular file (its size is not known beforehand): the standard input by its path
+            path = "/dev/stdin"
+            stdin = raw
         else:
             with open(path, "wb") as f:
                 f.write(raw)
